@@ -39,6 +39,7 @@ def mergeAttr (ps : ODict Param) (rets : Option Param) (n : Str) (typ : Str) (v 
 def classKindRT (ir : IR) (edd : Bool) : Res IR :=
   let params' := ir.params ++ (match ir.returns with | some r => [(retName, r)] | none => [])
   if params'.any (fun kp => kp.1 == retName) && ir.params.any (fun kp => kp.1 == retName) then .unmodelled "a parameter named return_type" else
+  if params'.any (fun kp => !ClassAttr.identText kp.1) then .unmodelled "a name that is not an identifier (the emitted text does not parse)" else
   let ir' : IR := { doc := ir.doc, params := params', returns := none }
   (toDocstring ir' edd 1 false true).bind fun text =>
   (mutatedParams edd 1 false params').bind fun mps =>
